@@ -946,6 +946,12 @@ var vTcpScripts = [][]string{
 	{ // F22 / O1: closing the IPv4-flag packet connection of (b, "10.0.0.1") must leave the IPv6-flag one and its client alone
 		"new 4 0 30 50", "getconn Ub 1 0", "getconn Ub 0 0", "accept 0 2 1000 0", "frame 0 1 ub 32", "closeh h1", "read h0",
 		"write h0 2 1000 9 8", "frame 0 2 d 12", "read h0", "closeh h0", "end"},
+	{ // a second client naming the same unknown ufrag joins the provisional connection; it still expires at the ORIGINAL alive deadline
+		"new 4 0 30 50", "accept 0 1 1001 0", "frame 0 1 ub 32", "advance 20", "accept 1 1 1002 0", "frame 1 2 ub 32", "advance 29", "advance 1",
+		"frame 0 3 d 5", "getconn Ub 0 0", "read h0", "end"},
+	{ // … and three clients, the last one just before the deadline
+		"new 4 0 30 50", "accept 0 1 1001 0", "frame 0 1 uc 32", "accept 1 1 1002 0", "advance 10", "frame 1 2 uc 32", "advance 39", "accept 2 0 1003 0",
+		"frame 2 3 uc 32", "advance 1", "advance 100", "getconn Uc 0 0", "read h0", "end"},
 	{ // empty ufrag, two handles on one connection, default timeouts
 		"new 2 0 0 0", "accept 0 0 1000 0", "frame 0 1 u 32", "getconn U 0 0", "getconn U 0 0", "closeh h0", "read h1", "advance 29999", "accept 1 0 1001 0", "advance 1", "advance 29999", "advance 1", "closeh h1", "end"},
 }
@@ -994,6 +1000,12 @@ func vTcpGenSession(r *vRand, maxOps int, emit func(string)) {
 	pickUfrag := func() string {
 		if len(handles) > 0 && r.chance(2, 3) {
 			return handles[r.intn(len(handles))].ufrag
+		}
+		if len(clients) > 0 && r.chance(1, 2) {
+			// the ufrag another client already named: several TCP connections on one (possibly provisional) packet connection
+			if c := clients[r.intn(len(clients))]; c.valid {
+				return c.ufrag
+			}
 		}
 		return vTcpUfrags[r.intn(len(vTcpUfrags))]
 	}
